@@ -137,7 +137,7 @@ Spec == Init /\ [][Next]_vars
 
 (***************************************************************************)
 (* Directed exploration: every sequence of maintenance steps (no builders) *)
-(* after five fixed build prefixes  -- an unreachable loose commit above a *)
+(* after six fixed build prefixes   -- an unreachable loose commit above a *)
 (* reachable one; a pack plus a loose commit; a commit stored twice.  The  *)
 (* harness replays ALL of these behaviours, not a sample.                  *)
 (***************************************************************************)
@@ -164,12 +164,18 @@ InitD5 ==
     /\ refs = [n \in Names |-> IF n = "refs/heads/a" THEN 1 ELSE IF n = "refs/tags/t" THEN TagOf(2) ELSE 0]
     /\ hist = <<E("add_alt", 0, "", {1, 2}), E("add_loose", 3, "", {}), E("add_loose", TagOf(2), "", {}),
                 E("set_ref", 1, "refs/heads/a", {}), E("set_ref", TagOf(2), "refs/tags/t", {})>>
-DirectedPrefix == IF hist[1].a = "add_alt" \/ hist[3].c = 2 THEN 5 ELSE 3
+    \* sixth prefix: unreachable commits 2, 3 stored twice -- in an old pack and in a pack written after the ageing
+InitD6 ==
+    /\ oldL = {} /\ alt = {} /\ loose = {} /\ packs = <<{1, 2, 3}, {2, 3}>> /\ oldP = <<TRUE, FALSE>>
+    /\ refs = [n \in Names |-> IF n = "refs/heads/a" THEN 1 ELSE 0]
+    /\ hist = <<E("add_pack", 0, "", {1, 2, 3}), E("set_ref", 1, "refs/heads/a", {}), E("age", 0, "", {}),
+                E("add_pack", 0, "", {2, 3})>>
+DirectedPrefix == IF hist[1].a = "add_alt" \/ hist[3].c = 2 THEN 5 ELSE IF hist[3].a = "age" THEN 4 ELSE 3
 NextMaint ==
     /\ Len(hist) < MaxLen + (DirectedPrefix - 3)
     /\ \/ \E c \in Objects : ReAdd(c)
        \/ Age \/ Prune \/ GitMaintLoose \/ PackLoose \/ Repack \/ GcPrune \/ GcKeep \/ Midx
-SpecD == (InitD \/ InitD4 \/ InitD5) /\ [][NextMaint]_vars
+SpecD == (InitD \/ InitD4 \/ InitD5 \/ InitD6) /\ [][NextMaint]_vars
 
 \* maintenance never loses a reachable object
 ReachablePreserved == Reachable \subseteq Present
